@@ -2,7 +2,8 @@
    is a generic case (function code, hash code, byte-string inputs, numeric inputs, observed
    byte-string outputs); [case_ok] recomputes the outputs with the independent model and compares
    byte for byte.  Evaluated with vm_compute on the cases emitted by the Go harnesses. *)
-From DtlsV Require Import Lib.Bytes Crypto.C10Sha2 Crypto.C10Hmac Crypto.C10Prf.
+From DtlsV Require Import Lib.Bytes Crypto.C10Sha2 Crypto.C10Hmac Crypto.C10Prf Crypto.C10Layout
+  Crypto.C10Hkdf.
 Open Scope N_scope.
 
 Definition c10_case := (N * N * list bytes * list N * list bytes)%type.
@@ -37,9 +38,42 @@ Definition expected_prf (fn : N) (H : hashfn) (ins : list bytes) (ns : list N) :
   | _, _, _ => None
   end.
 
+(* the connection ID is part of the header only for tls12_cid records *)
+Definition hdr_cid (typ : N) (cid : bytes) : bytes := if typ =? ct_tls12_cid then cid else [].
+
+(* function codes 20..39: record protection layouts (C10Layout) *)
+Definition expected_layout (fn : N) (H : hashfn) (ins : list bytes) (ns : list N) : option (list bytes) :=
+  match fn, ins, ns with
+  | 20, [], [e; s; t; v; l] => Some [aad12 e s t v l]
+  | 21, [cid], [e; s; v; l] => Some [aad12_cid e s v cid l]
+  | 22, [iv; cid], [e; s; t; v; pl; tag] =>
+      Some [nonce_aes iv e s; aad12_for e s t v cid pl;
+            header12 t v e s (hdr_cid t cid) (aes_aead_record_len pl tag); nonce_explicit e s]
+  | 23, [iv; cid], [e; s; t; v; pl] =>
+      Some [nonce_chacha iv e s; aad12_for e s t v cid pl;
+            header12 t v e s (hdr_cid t cid) (chacha_record_len pl)]
+  | 24, [key; payload; _], [e; s; t; v] =>
+      let mac := cbc_mac H key e s t v payload in
+      Some [cbc_plaintext 16 payload mac; header12 t v e s [] (cbc_record_len 16 payload mac)]
+  | 25, [key; payload], [e; s; t; v] => Some [cbc_mac H key e s t v payload]
+  | 26, [key; inner; cid], [e; s; v] => Some [cbc_mac_cid H key e s v cid inner]
+  | 27, [key; inner; cid], [e; s; v] => Some [cbc_mac_cid_as_coded H key e s v cid inner]
+  | 28, [key; inner; cid], [e; s; v] =>
+      let mac := cbc_mac_cid H key e s v cid inner in
+      Some [cbc_plaintext 16 inner mac; header12 ct_tls12_cid v e s cid (cbc_record_len 16 inner mac)]
+  | 29, [key; inner; cid], [e; s; v] =>
+      let mac := cbc_mac_cid_as_coded H key e s v cid inner in
+      Some [cbc_plaintext 16 inner mac; header12 ct_tls12_cid v e s cid (cbc_record_len 16 inner mac)]
+  | 30, [key; inner; cid], [e; s; v] =>
+      Some [cbc_mac_input_cid e s v cid inner;
+            cbc_plaintext 16 inner (cbc_mac_cid H key e s v cid inner); [1]]
+  | _, _, _ => None
+  end.
+
 Definition expected (c : c10_case) : option (list bytes) :=
   let '(fn, h, ins, ns, _) := c in
-  expected_prf fn (hash_of_code h) ins ns.
+  if fn <? 20 then expected_prf fn (hash_of_code h) ins ns
+  else expected_layout fn (hash_of_code h) ins ns.
 
 Definition case_ok (c : c10_case) : bool :=
   let '(_, _, _, _, obs) := c in
